@@ -69,6 +69,10 @@ func TestC19_RoundTrip(t *testing.T) {
 	rapid.Check(t, func(t *rapid.T) {
 		c := codecByName[rapid.SampledFrom(codecNames).Draw(t, "type")]
 		v := genValue(t, c)
+		// encode canonicality holds for every drawn value, also the ones the listed ack finding withholds from the decode checks
+		if pre, err := c.enc(v); err != nil || !bytes.Equal(pre, refEncode(v)) {
+			t.Fatalf("ABIPack is not the canonical ABI encoding (err=%v)\nvalue=%s\n got=%x\nwant=%x", err, render(c, v), clipB(pre), clipB(refEncode(v)))
+		}
 		excludeKnownAck(c, v, r)
 		bz := checkRoundTrip(t, c, v)
 		want := sha256.Sum256(bz)
